@@ -67,6 +67,8 @@ func VerifyFunc(p *Program, key string, fn *ssa.Function, k *Contract) *FuncResu
 	fr := e.newFrame(fn, nil)
 	fr.contract = k
 	e.root = fr
+	e.curSt = e.entry
+	c.Assert("(>= " + e.top(e.entry) + " 0)")
 	var args []Val
 	for i, prm := range fn.Params {
 		if _, ok := prm.Type().Underlying().(*types.Signature); ok {
@@ -116,6 +118,7 @@ func VerifyFunc(p *Program, key string, fn *ssa.Function, k *Contract) *FuncResu
 		c.Assert(env.evalBool(ex))
 	}
 	props := allProps(k)
+	e.computeAllowed(k, env)
 	oc := e.evalFunc(fr, args, e.entry.Clone(), "true")
 
 	// ensures
@@ -179,36 +182,26 @@ func VerifyFunc(p *Program, key string, fn *ssa.Function, k *Contract) *FuncResu
 	return &FuncResult{Key: key, Contract: k, Obls: e.obls, Ctx: c, Unsupported: c.unsupported, CallLog: e.callLog}
 }
 
-// frameObligations: every heap / ghost component is unchanged except at the
-// locations the modifies clause names and at objects allocated by the call.
-func (e *Eval) frameObligations(k *Contract, fn *ssa.Function, env *Env, oc Outcome, props []string) {
+// computeAllowed evaluates the root's modifies clause (in the entry state)
+// into whole components and single locations.
+func (e *Eval) computeAllowed(k *Contract, env *Env) {
 	c := e.c
-	if oc.NormalCond == "false" {
-		return
-	}
-	// allowed locations per component
-	allowedAll := map[string]bool{}
-	allowedIdx := map[string][]string{}
-	var elemSlices []TV
+	e.allowedAll = map[string]bool{}
+	e.allowedIdx = map[string][]string{}
 	for _, m := range k.Modifies {
 		switch {
 		case m == "*":
-			return
+			e.allowedAll["*"] = true
 		case strings.HasPrefix(m, "$") && strings.HasSuffix(m, "*"):
-			for comp := range c.compSort {
-				if strings.HasPrefix(comp, m[:len(m)-1]) {
-					allowedAll[comp] = true
-				}
-			}
+			e.allowedAll[m] = true
 		case strings.HasPrefix(m, "$"):
-			allowedAll[m] = true
+			e.allowedAll[m] = true
 		case strings.HasPrefix(m, "elems(") && strings.HasSuffix(m, ")"):
 			if ex, err := ParseSpecExpr(m[6 : len(m)-1]); err == nil {
 				tv := env.eval(ex)
 				if sl, ok := tv.Ty.Underlying().(*types.Slice); ok {
 					comp := e.elemComp(sl.Elem())
-					allowedIdx[comp] = append(allowedIdx[comp], "(s.arr "+tv.T+")")
-					elemSlices = append(elemSlices, tv)
+					e.allowedIdx[comp] = append(e.allowedIdx[comp], "(s.arr "+tv.T+")")
 				}
 			}
 		case strings.HasPrefix(m, "maps(") && strings.HasSuffix(m, ")"):
@@ -216,7 +209,7 @@ func (e *Eval) frameObligations(k *Contract, fn *ssa.Function, env *Env, oc Outc
 				if t := env.typeExpr(ex); t != nil {
 					if mt, ok := t.Underlying().(*types.Map); ok {
 						dom, val := e.mapComps(mt)
-						allowedAll[dom], allowedAll[val] = true, true
+						e.allowedAll[dom], e.allowedAll[val] = true, true
 					}
 				}
 			}
@@ -225,8 +218,8 @@ func (e *Eval) frameObligations(k *Contract, fn *ssa.Function, env *Env, oc Outc
 				tv := env.eval(ex)
 				if mt, ok := tv.Ty.Underlying().(*types.Map); ok {
 					dom, val := e.mapComps(mt)
-					allowedIdx[dom] = append(allowedIdx[dom], tv.T)
-					allowedIdx[val] = append(allowedIdx[val], tv.T)
+					e.allowedIdx[dom] = append(e.allowedIdx[dom], tv.T)
+					e.allowedIdx[val] = append(e.allowedIdx[val], tv.T)
 				}
 			}
 		case strings.HasPrefix(m, "type:"):
@@ -235,26 +228,47 @@ func (e *Eval) frameObligations(k *Contract, fn *ssa.Function, env *Env, oc Outc
 				stt := t.Underlying().(*types.Struct)
 				for i := 0; i < stt.NumFields(); i++ {
 					if len(parts) == 1 || stt.Field(i).Name() == parts[1] {
-						allowedAll[fieldComp(t, i)] = true
+						e.allowedAll[fieldComp(t, i)] = true
 					}
 				}
 			}
 		case strings.HasPrefix(m, "arrays(") && strings.HasSuffix(m, ")"):
-			// arrays(T): any element array of that element type
 			if t := env.lookupType(m[7 : len(m)-1]); t != nil {
-				allowedAll[e.elemComp(t)] = true
+				e.allowedAll[e.elemComp(t)] = true
 			}
 		default:
 			if ex, err := ParseSpecExpr(m); err == nil {
 				if a := env.evalAddr(ex); a != nil {
 					if a.Kind == "cell" {
-						allowedAll[a.Comp] = true
+						e.allowedAll[a.Comp] = true
 					} else {
-						allowedIdx[a.Comp] = append(allowedIdx[a.Comp], a.Base)
+						e.allowedIdx[a.Comp] = append(e.allowedIdx[a.Comp], a.Base)
 					}
 				}
 			}
 		}
+	}
+	_ = c
+}
+
+func (e *Eval) compAllowed(comp string) bool {
+	if e.allowedAll["*"] || e.allowedAll[comp] {
+		return true
+	}
+	for w := range e.allowedAll {
+		if strings.HasSuffix(w, "*") && strings.HasPrefix(comp, w[:len(w)-1]) {
+			return true
+		}
+	}
+	return false
+}
+
+// frameObligations: every heap / ghost component is unchanged except at the
+// locations the modifies clause names and at objects allocated by the call.
+func (e *Eval) frameObligations(k *Contract, fn *ssa.Function, env *Env, oc Outcome, props []string) {
+	c := e.c
+	if oc.NormalCond == "false" || e.allowedAll["*"] {
+		return
 	}
 	var comps []string
 	for comp := range c.compSort {
@@ -262,11 +276,11 @@ func (e *Eval) frameObligations(k *Contract, fn *ssa.Function, env *Env, oc Outc
 	}
 	sort.Strings(comps)
 	for _, comp := range comps {
-		if strings.HasPrefix(comp, "L.") || strings.HasPrefix(comp, "$c.") || allowedAll[comp] {
+		if strings.HasPrefix(comp, "L.") || strings.HasPrefix(comp, "$c.") || e.compAllowed(comp) {
 			continue
 		}
 		switch comp {
-		case "$recovered", "$fncalls", "$fnresult":
+		case "$recovered", "$fncalls", "$fnresult", "$top":
 			continue
 		}
 		fin := c.Get(oc.St, comp)
@@ -274,19 +288,14 @@ func (e *Eval) frameObligations(k *Contract, fn *ssa.Function, env *Env, oc Outc
 		if fin == ini {
 			continue
 		}
-		want := ini
-		srt := c.compSort[comp]
-		if strings.HasPrefix(srt, "(Array Int ") {
-			for _, idx := range allowedIdx[comp] {
-				want = sto(want, idx, sel(fin, idx))
-			}
-			for _, a := range e.allocs {
-				want = sto(want, a, sel(fin, a))
-			}
+		var g string
+		if strings.HasPrefix(c.compSort[comp], "(Array Int ") && !strings.HasPrefix(comp, "$") {
+			g = e.frameFormula(comp, fin, true)
+		} else {
+			g = eq(fin, ini)
 		}
-		e.oblige("frame/"+comp, "frame", props, oc.NormalCond, eq(fin, want), "only the locations named in modifies (and objects allocated by the call) change: "+comp, k.Where)
+		e.oblige("frame/"+comp, "frame", props, oc.NormalCond, g, "only the locations named in modifies (and objects allocated by the call) change: "+comp, k.Where)
 	}
-	_ = elemSlices
 }
 
 func (c *Ctx) implAxioms() []string {
@@ -393,7 +402,7 @@ func (c *Ctx) Query(o *Obligation, wantModel bool) string {
 	if !o.Cover {
 		goalText = "(assert (not " + implies(o.Reach, o.Goal) + "))\n"
 	}
-	for _, d := range c.freshnessAxioms(o.Mark, body.String()+goalText) {
+	for _, d := range c.entryClosureAxioms(body.String() + goalText) {
 		body.WriteString(d)
 		body.WriteByte('\n')
 	}
